@@ -39,7 +39,9 @@ Tsn(f) == /\ Len(hist) = 1 /\ sel # None
           /\ hist' = Append(hist, [a |-> "tsn", f |-> f])
           /\ UNCHANGED sel
 
-Asn(f, s) == /\ Len(hist) = 1 /\ sel # None
+\* OS devices have no attribute text of their own (only info attributes): a few of them are enough
+FewTypes(o) == o.type # OSDEV \/ Cardinality(o.os) <= 1
+Asn(f, s) == /\ Len(hist) = 1 /\ sel # None /\ FewTypes(sel)
              /\ out' = [k |-> "asn", f |-> f, sep |-> s]
              /\ hist' = Append(hist, [a |-> "asn", f |-> f, sep |-> s])
              /\ UNCHANGED sel
@@ -56,6 +58,7 @@ VariantText(text, v) ==
 Variants(text) == {<<"upper", 0>>, <<"lower", 0>>, <<"colon", 0>>, <<"digit", 0>>, <<"junk", 0>>}
                   \cup {<<"cut", n>> : n \in 0..Min(MaxCut, Len(text) - 1)}
 Var(v) == /\ Len(hist) = 2 /\ out.k = "tsn" /\ out.f \in VarFlags
+          /\ (sel.type # OSDEV \/ Cardinality(sel.os) <= 2 \/ sel.os = KnownOsBits)
           /\ v \in Variants(out.text)
           /\ LET t == VariantText(out.text, v) IN
              out' = [k |-> "var", v |-> v[1], text |-> t, scan |-> ParseM(t), base |-> out.scan]
